@@ -152,6 +152,23 @@ fn run(args: &[String]) -> Result<i32, String> {
                                         _ => rep.tool_error(format!("unknown engine {engine}")),
                                     }
                                 }
+                                if engine == "ops" {
+                                    // every cell once more, ordered by operands: the same operand then meets the other
+                                    // operators back to back (an outcome is a function of the cell, not of what ran before)
+                                    let mut again: Vec<(String, J)> = part.iter().filter_map(|l| parse_case_line(l).ok()).map(|c| (format!("{}|{}", c["a"], c["k"]), c)).collect();
+                                    again.sort_by(|x, y| x.0.cmp(&y.0));
+                                    for (_, case) in &again {
+                                        ops::replay_case_again(case, &mut rep);
+                                    }
+                                }
+                                if engine == "parse" {
+                                    // every text once more, after all the others of this chunk have been parsed
+                                    for line in part {
+                                        if let Ok(case) = parse_case_line(line) {
+                                            parse::replay_parse_again(&case, &mut rep);
+                                        }
+                                    }
+                                }
                                 rep
                             }).expect("spawn")
                         })
